@@ -1,5 +1,5 @@
 # Spec keys: name; fun_params {param: default function name} (function-valued parameters);
-# glue [source lines skipped verbatim]; return_glue "<expr>" (`X[0] if flag else X` -> X);
+# glue [whole statements (ast.unparse text) skipped verbatim; an edited glue statement is a Refusal]; return_glue "<expr>" (`X[0] if flag else X` -> X);
 # const_defaults True (constant default arguments become fixed lets); reduction "mean"|"nanmean"
 # (top-level np.mean/np.nanmean over the samples: the pointwise term is emitted).
 MODULE = ("Atmosphere", "typhon/physics/atmosphere.py", [
@@ -15,7 +15,7 @@ MODULE = ("Atmosphere", "typhon/physics/atmosphere.py", [
     {"name": "e_eq_water_mk"},
     {"name": "e_eq_mixed_mk", "glue": [
         "is_float_input = isinstance(T, Number)",
-        "if is_float_input:",
+        "if is_float_input:\n    T = np.asarray([T])",
     ], "return_glue": "e_eq[0] if is_float_input else e_eq"},
     {"name": "relative_humidity2vmr", "fun_params": {"e_eq": "e_eq_water_mk"}},
     {"name": "vmr2relative_humidity", "fun_params": {"e_eq": "e_eq_water_mk"}},
